@@ -14,6 +14,7 @@ mkleaf() { # name cn san
 }
 mkleaf good localhost "DNS:localhost,IP:127.0.0.1"
 mkleaf wrongname other.invalid "DNS:other.invalid"
+mkleaf dnsonly localhost "DNS:localhost"
 q openssl req -x509 -newkey rsa:2048 -nodes -keyout selfsigned.key -out selfsigned.pem -days 3650 -subj "/CN=localhost" \
   -addext "subjectAltName=DNS:localhost,IP:127.0.0.1"
 q openssl pkcs12 -export -inkey selfsigned.key -in selfsigned.pem -out selfsigned.p12 -passout pass:verif
